@@ -9,7 +9,7 @@ FAMILY = ["C14", "C15", "C16"]
 MODEL_CFG = {
     "C14": {"quick": [("MC_q_witness.cfg", "ok")], "thorough": [("MC_witness.cfg", "ok")]},
     "C15": {"quick": [("MC_q_mirror.cfg", "ok")], "thorough": [("MC_mirror.cfg", "ok")]},
-    "C16": {"quick": [("MC_subtree.cfg", "ok")], "thorough": [("MC_subtree.cfg", "ok")]},
+    "C16": {"quick": [("MC_subtree.cfg", "ok", "SignSubtree.tla")], "thorough": [("MC_subtree.cfg", "ok", "SignSubtree.tla")]},
 }
 
 FAM = tracefam.Family(
